@@ -92,9 +92,7 @@ def lookup_rule(ctx, rep, se):
 
     def is_lookup(v, elem):
         """v = index of the current element in the grid"""
-        v = strip(v)
-        while v[0] == "cast" and v[1] == "IntToInt":
-            v = v[2]
+        v = util.strip_int_conversions(v)
         if v[0] == "field" and v[2] == 0:
             v = v[1]
             via_find = True
